@@ -31,6 +31,7 @@ def main():
     r.add_argument("file")
     sub.add_parser("setup")
     sub.add_parser("baseline")
+    sub.add_parser("fidelity")
     a = ap.parse_args()
     try:
         if a.cmd == "check":
@@ -41,6 +42,8 @@ def main():
             sys.exit(families.setup())
         if a.cmd == "baseline":
             sys.exit(families.baseline())
+        if a.cmd == "fidelity":
+            sys.exit(families.fidelity())
     except Infra as e:
         print("INFRA: %s" % e, file=sys.stderr)
         sys.exit(2)
